@@ -83,7 +83,7 @@ pub const POOLS: &[Pool] = &[
             r"é",
             r"\x{e9}a?",
             r"[^a]",
-            r"Ã.",
+            r"[ÃÄ].",
             r"\p{Lu}\p{Ll}*",
             r"\PL",
         ],
